@@ -10,6 +10,7 @@ O3 open_path: suffix x mode x clobber/exists x stdin/stdout naming with stand-in
 O4 RecordAdapter URL dispatch: extension / scheme / sub-adapter table.
 """
 import io
+import os
 import types
 
 import z3
@@ -537,6 +538,76 @@ def interleaved_problem(ext_a, ext_b, schedule):
     return None
 
 
+def interleaved_read_problem(ext_a, ext_b, schedule, how):
+    """Two sources open for READING at the same time, their records consumed alternately as `schedule` says: each reader yields
+    exactly its own records in order (how: 'path' = named with the extension, 'hidden' = a name that hides the codec, 'fileobj')."""
+    from flow.record import RecordDescriptor, RecordReader, RecordWriter
+
+    D = RecordDescriptor("test/ilr", [("varint", "n"), ("string", "who")])
+    with tempdir() as d:
+        paths = []
+        want = [[], []]
+        for k, ext in enumerate((ext_a, ext_b)):
+            p = f"{d}/{'ab'[k]}.records{ext}"
+            w = RecordWriter(p)
+            for i in range(4):
+                w.write(D(10 * k + i, "ab"[k] * 30))
+                want[k].append(10 * k + i)
+            w.flush()
+            w.close()
+            if how != "path":
+                q = f"{d}/hidden-{'ab'[k]}.bin"
+                os.rename(p, q)
+                p = q
+            paths.append(p)
+        try:
+            if how == "fileobj":
+                rds = [RecordReader(fileobj=open(p, "rb")) for p in paths]
+            elif how == "hidden":
+                rds = [RecordReader("stream://" + p) for p in paths]
+            else:
+                rds = [RecordReader(p) for p in paths]
+            its = [iter(r) for r in rds]
+            got = [[], []]
+            for who in schedule:
+                k = 1 if who else 0
+                got[k].append(int(next(its[k]).n))
+            for k in (0, 1):
+                got[k] += [int(r.n) for r in its[k]]
+            for r in rds:
+                r.close()
+        except Exception as e:  # noqa: BLE001
+            return f"reading two open sources (*{ext_a or 'raw'}, *{ext_b or 'raw'}, {how}) alternately raised {type(e).__name__}: {e}"
+        if got != want:
+            return f"two open sources (*{ext_a or 'raw'}, *{ext_b or 'raw'}, {how}) read alternately: got {got}, written {want}"
+    return None
+
+
+def interleaved_read(ea: int):
+    from crosshair.tracers import NoTracing
+
+    hows = ["path", "hidden", "fileobj"]
+
+    def check(eb: int, h: int, s0: bool, s1: bool, s2: bool) -> bool:
+        """
+        post: _
+        """
+        if not (0 <= eb < len(EXTS) and 0 <= h < 3):
+            return True
+        ext_b = how = None
+        for j in range(len(EXTS)):
+            if eb == j:
+                ext_b = EXTS[j]
+        for j in range(3):
+            if h == j:
+                how = hows[j]
+        sched = [bool(s0), bool(s1), bool(s2)]
+        with NoTracing():
+            return interleaved_read_problem(EXTS[ea], ext_b, sched, how) is None
+
+    return check
+
+
 def interleaved(ea: int, k: int = 4):
     """Path-exhaustive over (codec of the second writer, schedule of k writes): the concrete part runs real codecs untraced."""
     from crosshair.tracers import NoTracing
@@ -569,6 +640,7 @@ def obligations(tier, seed):
         ob("O2-not-found", "xh", "not_found", {}, timeout=to, bounds="3 detection outcomes x leading '<' x selector"),
         ob("O3-open-path", "xh", "path_open", {}, timeout=to * 2, bounds="10 suffixes x 5 modes x clobber x exists x 4 stdio spellings"),
         *[ob(f"O5-interleaved-writers/{EXTS[i] or 'raw'}", "xh", "interleaved", {"ea": i, "k": 4 if tier == "quick" else 6}, timeout=to * 2, group="O5-interleaved", bounds=f"second writer's codec x every schedule of {4 if tier == 'quick' else 6} interleaved writes, real codecs and files") for i in range(len(EXTS))],
+        *[ob(f"O5-interleaved-readers/{EXTS[i] or 'raw'}", "xh", "interleaved_read", {"ea": i}, timeout=to * 2, group="O5-interleaved", bounds="second source's codec x 3 ways of naming x every schedule of 3 alternating reads, real codecs and files") for i in range(len(EXTS))],
         ob("O4-urls", "xh", "urls", {}, timeout=to * 2, bounds=f"{len(URLS)} URL spellings x reader/writer x clobber"),
     ]
 
@@ -686,6 +758,15 @@ def replay_header(res):
 def replay(res):
     if "stream-header" in res["id"]:
         return replay_header(res)
+    if "interleaved-readers" in res["id"]:
+        ea = EXTS[res["args"]["ea"]]
+        for eb in EXTS:
+            for how in ("path", "hidden", "fileobj"):
+                for sch in ([False, True, False], [True, True, False], [False, False, True]):
+                    p = interleaved_read_problem(ea, eb, sch, how)
+                    if p:
+                        return {"reproduced": True, "key": f"C11/interleaved-readers/{ea or 'raw'}+{eb or 'raw'}", "what": p[:600], "input": {"ext_a": ea, "ext_b": eb, "schedule": sch, "how": how}}
+        return {"reproduced": False, "what": "interleaved readers yield their own records"}
     if "interleaved" in res["id"]:
         v = cex_args(res, ["eb", "s0", "s1", "s2", "s3"])
         ea = EXTS[res["args"]["ea"]]
